@@ -27,11 +27,33 @@ func TestC13_SignTransaction(t *testing.T) {
 	hx.Check(t, "C13", 700, 40000, func(t *rapid.T) {
 		kind := rapid.SampledFrom([]wkind{kDet, kBip, kColl, kDet, kBip, kXpub}).Draw(t, "kind")
 		nEntries := rapid.IntRange(1, 4).Draw(t, "entries")
+		grewLocked := false
 		w := newWallet(t, kind, rapid.IntRange(0, 30).Draw(t, "seed"), nEntries, crypto.CryptoTypeSha256Xor)
 		if kind == kBip && rapid.Bool().Draw(t, "change") {
 			if _, err := w.GenerateAddresses(wallet.OptionGenerateN(2), wallet.OptionChange()); err != nil {
 				t.Fatal(err)
 			}
+		}
+		// wallet history before signing: the wallet was locked, grew while locked (keys of the new entries are derived at
+		// the next unlock), and was unlocked again
+		if kind == kBip && rapid.IntRange(0, 2).Draw(t, "grew_locked") == 0 { // only bip44 wallets can derive addresses while locked
+			pw := []byte("grow")
+			if err := w.Lock(pw); err != nil {
+				t.Fatalf("lock: %v", err)
+			}
+			opts := []wallet.Option{wallet.OptionGenerateN(uint64(rapid.IntRange(1, 3).Draw(t, "grow_n")))}
+			if kind == kBip && rapid.Bool().Draw(t, "grow_change") {
+				opts = append(opts, wallet.OptionChange())
+			}
+			if _, err := w.GenerateAddresses(opts...); err != nil {
+				t.Fatalf("generate while locked: %v", err)
+			}
+			u, err := w.Unlock(pw)
+			if err != nil {
+				t.Fatalf("unlock: %v", err)
+			}
+			w = u
+			grewLocked = true
 		}
 		entries, _ := w.GetEntries()
 		var pool []owner
@@ -220,6 +242,9 @@ func TestC13_SignTransaction(t *testing.T) {
 			}
 		}
 		nt := sel == "subset" || mixed || len(presigned) > 0
+		if grewLocked {
+			r.Count("wallet_grew_while_locked")
+		}
 		r.Count("type_" + string(kind))
 		r.Count("selection_" + sel)
 		if err == nil {
